@@ -241,10 +241,10 @@ func (root *Root) skipSel(sel Selection, vars map[string]interface{}) (skip bool
 			if av := du.Args["if"]; av != nil {
 				switch v := av.Value.(type) {
 				case bool:
-					skip = v
+					skip = skip || v
 				case Var:
 					if b, ok := vars[string(v)].(bool); ok {
-						skip = b
+						skip = skip || b
 					} else {
 						skip = true // default to skipping
 						ea = append(ea, resWarnp(sel, "%v is not a valid 'if' value for @skip", v))
@@ -257,10 +257,10 @@ func (root *Root) skipSel(sel Selection, vars map[string]interface{}) (skip bool
 			if av := du.Args["if"]; av != nil {
 				switch v := av.Value.(type) {
 				case bool:
-					skip = !v
+					skip = skip || !v
 				case Var:
 					if b, ok := vars[string(v)].(bool); ok {
-						skip = !b
+						skip = skip || !b
 					} else {
 						skip = true // default to skipping
 						ea = append(ea, resWarnp(sel, "%v is not a valid 'if' value for @include", v))
